@@ -12,6 +12,7 @@ import random
 from collections import Counter
 from harness import common, edits, export
 
+EXTRA_PROPS_FILES = ["Scfg/Props/C14Join.lean"]
 LEVEL = "proof"
 
 
